@@ -105,6 +105,12 @@ func TestVerifC25(t *testing.T) {
 		var beta types.RecentBlocks
 		model := &mState{}
 		carrySame := ci%2 == 0 // carry the very objects forward (as the node does) or deep copies
+		// one chain-state instance for the whole history AND left over from the previous history of this process (a node lives on
+		// through blocks, forks and restores; its intermediate state is not recreated per block), or a fresh instance per block
+		reuse := ci%3 != 0
+		if reuse {
+			h.Inc("histories_on_a_long_lived_chain_state_instance")
+		}
 		bad := false
 		for b := 0; b < L && !bad; b++ {
 			var parentRoot [32]byte
@@ -165,7 +171,9 @@ func TestVerifC25(t *testing.T) {
 					copy(xacc[i].Hash[:], r.Bytes(32))
 				}
 				vh.Guard(func() {
-					blockchain.ResetInstance()
+					if !reuse {
+						blockchain.ResetInstance()
+					}
 					cs := blockchain.GetInstance()
 					cs.GetPriorStates().SetBeta(prior)
 					cs.AddBlock(types.Block{Header: xh, Extrinsic: types.Extrinsic{Guarantees: xeg}})
@@ -181,7 +189,9 @@ func TestVerifC25(t *testing.T) {
 			var gotH types.BlocksHistory
 			var gotB types.Mmr
 			p, msg, st := vh.Guard(func() {
-				blockchain.ResetInstance()
+				if !reuse {
+					blockchain.ResetInstance()
+				}
 				cs := blockchain.GetInstance()
 				cs.GetPriorStates().SetBeta(prior)
 				cs.AddBlock(types.Block{Header: hdr, Extrinsic: types.Extrinsic{Guarantees: eg}})
